@@ -7,6 +7,7 @@ import (
 	"strconv"
 	"strings"
 	"sync"
+	"sync/atomic"
 	"time"
 
 	"github.com/whatap/golib/lang/pack"
@@ -21,13 +22,27 @@ type freeResult struct {
 	nPack     int
 	idleCuts  int
 	drops     int
+	skipped   string
 }
 
 // runFree lets the real background goroutine run against concurrent producers and a
 // concurrent SendDirect caller, then evaluates the property on what the client received
 // and rebuilds an equivalent sequential history for the model.
+// hangAfter: nothing at all moves (no pack handed over, no ApplyConfig call returning) for this long
+// while calls into the sender are outstanding: a hang.  Only bounds hangs; generous for a loaded machine.
+const hangAfter = 45 * time.Second
+
+// deadFlavour: scenario flavours for which a hang has been established in this process; their
+// remaining cases are skipped (the hang is paid for once)
+var deadFlavour sync.Map
+
 func runFree(c *Case, e *evalCtx) *freeResult {
 	f := c.Free
+	if f.ReloadStorm {
+		if _, dead := deadFlavour.Load("reload-storm"); dead {
+			return &freeResult{skipped: "reload-storm"}
+		}
+	}
 	cl := &recClient{mode: c.Client, slow: time.Duration(f.SlowUs) * time.Microsecond, fault: c.Fault}
 	snd := zip.NewForVerif(cl, toVS(c.Settings))
 	if f.Conf != nil {
@@ -153,7 +168,70 @@ func runFree(c *Case, e *evalCtx) *freeResult {
 			}
 		}(cI)
 	}
-	wg.Wait()
+	// reconfiguration hammered while the loop appends and flushes: ApplyConfig with the settings already in
+	// force (all four keys), so what is emitted must not change — but every call takes the settings lock
+	// against the readers in run / Append / doZip / SendDirect
+	var reloadCalls atomic.Int64
+	var stopReload atomic.Bool
+	reloadDone := make(chan struct{})
+	if f.ReloadStorm {
+		q, w, b, z := st.QueueCap, st.MaxWait, st.MaxBuf, st.ZipMin
+		same := (&ConfSpec{QueueSize: &q, MaxWait: &w, MaxBuf: &b, ZipMin: &z}).toConf()
+		go func() {
+			defer close(reloadDone)
+			for !stopReload.Load() {
+				snd.ApplyConfig(same)
+				reloadCalls.Add(1)
+				time.Sleep(20 * time.Microsecond)
+			}
+		}()
+	} else {
+		close(reloadDone)
+	}
+	// the callers may never come back (a deadlock inside the sender blocks SendDirect and ApplyConfig for
+	// good): wait for them with a hang watchdog on logical progress
+	callersDone := make(chan struct{})
+	go func() { wg.Wait(); close(callersDone) }()
+	progress := func() int64 {
+		cl.mu.Lock()
+		n := int64(len(cl.got))
+		cl.mu.Unlock()
+		return n + reloadCalls.Load()
+	}
+	hung := func(ch <-chan struct{}) bool {
+		last, lastAt := progress(), time.Now()
+		for {
+			select {
+			case <-ch:
+				return false
+			case <-time.After(2 * time.Millisecond):
+			}
+			if p := progress(); p != last {
+				last, lastAt = p, time.Now()
+			} else if time.Since(lastAt) > hangAfter {
+				return true
+			}
+		}
+	}
+	reportHang := func(what string) *freeResult {
+		if f.ReloadStorm {
+			deadFlavour.Store("reload-storm", true)
+		}
+		cl.mu.Lock()
+		n := len(cl.got)
+		cl.mu.Unlock()
+		e.prop("reload-while-appending:hang", "%s: for %v no pack was handed over and no ApplyConfig call returned (%d packs and %d reloads until then) while producers, %d SendDirect caller(s) and a goroutine calling ApplyConfig (with the settings already in force) use the running sender — the sender is deadlocked and never emits again",
+			what, hangAfter, n, reloadCalls.Load(), callers)
+		res.finds = e.finds
+		return res
+	}
+	if hung(callersDone) {
+		return reportHang("the producers / SendDirect callers do not return")
+	}
+	stopReload.Store(true)
+	if hung(reloadDone) {
+		return reportHang("ApplyConfig does not return")
+	}
 	if directPanic != "" {
 		e.prop("SendDirect:panic", "SendDirect panicked: %s", vh.Clip(directPanic, 200))
 	}
